@@ -831,6 +831,10 @@ func (x *Exec) rangeStmt(st *State, s *ast.RangeStmt, label string) *Flow {
 			}
 		}
 		if s.Value != nil {
+			if vt != nil && v.Sort != nil && (v.Sort.Kind == KInt || v.Sort.Kind == KSlice || v.Sort.Kind == KMap || v.Sort.Kind == KStruct) {
+				// the element read by the range clause is a well-typed value of the element type (integer range etc.)
+				x.assume(st, c.typeFactsQ(v, vt, 1, 0))
+			}
 			if id, ok := s.Value.(*ast.Ident); ok && s.Tok == token.DEFINE {
 				v.Go = vt
 				x.define(st, id, v)
